@@ -174,6 +174,25 @@ fn one_item_only(ctx: &mut Ctx, ty: Ty, b: &[u8], tagged: bool) {
     } else {
         tagged_agreement(ctx, ty, b);
     }
+    // the accepted input embedded in a byte string, bare and under tag 24 ("encoded CBOR data item")
+    if b.len() <= 4096 {
+        let mut e = Vec::new();
+        rcbor::put_head(&mut e, 2, b.len() as u64, &mut Style::canonical());
+        e.extend_from_slice(b);
+        let mut t24 = vec![0xd8, 0x18];
+        t24.extend_from_slice(&e);
+        for x in [e, t24] {
+            ctx.count("embedded");
+            if tagged {
+                tagged_agreement(ctx, ty, &x);
+            } else {
+                api_agreement(ctx, ty, &x);
+                if ty.tag().is_some() {
+                    tagged_agreement(ctx, ty, &x);
+                }
+            }
+        }
+    }
     // the accepted input behind a tag head (every width): both layers must still say the same
     if b.len() <= 4096 {
         for pre in tag_prefixes() {
